@@ -616,7 +616,7 @@ Proof.
                 end = (s', r) -> Inv s' /\ ext s s' /\ (forall a, r = ROk a -> holds s' a)).
       { intros s1 r1 I1 X1 E1. destruct r1 as [a|x|]; [| destruct (is_exception x)|]; injection E1 as <- <-;
           (split; [exact I1|split; [exact X1|intros a0 Ha; try discriminate]]). injection Ha as <-. now apply holds_noobj. }
-      destruct v; try (apply (G s _ I (ext_refl s) E)).
+      destruct v as [?| |o|?|?|? ?|]; try (apply (G s _ I (ext_refl s) E)).
       destruct (touch S OpRaise o [] s) as [s1 r1] eqn:Et.
       destruct (spec_touch (fun s => holds s (LO o)) OpRaise o [] (fun s H => proj1 (holds_LO s o) H) ltac:(discriminate) _ _ _ I Hv Et) as (I1 & X1 & _).
       exact (G s1 r1 I1 X1 E).
